@@ -450,6 +450,9 @@ def generate(case, lib, processed_name, processed_text):
     if lang == "cpp":
         src.append("#include <utility>\n#include <string>\n")
     src.append('#include "%s"\n' % processed_name)
+    if "S3" not in [it["name"] for it in lib.ordered_items()]:
+        # the header does not mention S3: the mock's own sentinels still need the type
+        src.append("struct S3 { uint8_t a; uint16_t b; uint64_t c; };")
     src.append(PRELUDE if lang == "c" else PRELUDE.replace("struct S3 g_s3arr", "S3 g_s3arr").replace("struct S3 v", "S3 v"))
     for info in infos:
         if lang == "cpp":
@@ -459,8 +462,7 @@ def generate(case, lib, processed_name, processed_text):
         for f, t in info["fields"]:
             es = [e for e in info["entries"] if e["field"] == f]
             src.append("static const %s vt_%d_%s = { %s };" % (
-                info["vtbl_decl"][f].replace("const ", "", 1) if info["vtbl_decl"][f].startswith("const ") else info["vtbl_decl"][f],
-                info["idx"], f, ", ".join("&" + _slot_name(info, e) if lang == "cpp" else _slot_name(info, e) for e in es) or "0"))
+                info["vtbl_decl"][f], info["idx"], f, ", ".join("&" + _slot_name(info, e) if lang == "cpp" else _slot_name(info, e) for e in es) or "0"))
     for c in calls:
         src.append(_call_def(c, lib, lang))
     # C++: one extra block per instance that only constructs and destroys the object (the destructor is the drop helper)
@@ -581,10 +583,21 @@ BENIGN_WARNINGS = {"-Wunused-function", "-Wunused-variable", "-Wunused-but-set-v
 DIAG_RE = re.compile(r"^(?P<file>[^:\n]+):(?P<line>\d+):(?:(?P<col>\d+):)? (?P<sev>fatal error|error|warning): (?P<msg>.*?)(?: \[(?P<flag>-W[^\]]+)\])?$", re.M)
 
 
+KEEP_NAMES = {"CBox_c_void", "CArc_c_void", "u64", "RustMaybeUninit", "MaybeUninit", "CGlueTraitObj", "CGlueObjContainer", "NoContext",
+              "CGlueCtx", "CGlueInst", "Context", "context", "S3", "struct S3"}
+
+
 def normalise_msg(msg):
-    msg = re.sub(r"[‘'`\"][^’'`\"]*[’'`\"]", "'_'", msg)
-    msg = re.sub(r"\d+", "N", msg)
-    return msg[:80]
+    """stable class of a compiler/tool message: quoted names are dropped unless they are fixed library/tool names"""
+    parts = re.split(r"([‘'`\"][^’'`\"]*[’'`\"])", msg)
+    out = ""
+    for i, p in enumerate(parts):
+        if i % 2:
+            inner = p[1:-1]
+            out += "'%s'" % inner if inner in KEEP_NAMES else "'_'"
+        else:
+            out += re.sub(r"\d+", "N", p)
+    return out[:80]
 
 
 def classify_diagnostics(text, processed_name):
